@@ -38,7 +38,8 @@ def _fails(sc, prop, sig, budget, full_digest=False):
 SEARCH = (
     [{"kind": "random", "p": p} for p in (0.3, 0.1, 0.6)]
     + [{"kind": "pct", "d": d, "horizon": h} for d in (1, 2) for h in (30, 150)]
-    + [{"kind": "sticky", "p": 0.05, "p_store": 0.7}]
+    + [{"kind": "sticky", "p": 0.05, "p_store": 0.7}, {"kind": "reads", "p": 0.02, "p_read": 0.2, "to_nemesis": 0.7},
+       {"kind": "reads1", "p": 0.01, "reads_horizon": 8}, {"kind": "reads1", "p": 0.01, "reads_horizon": 24}]
 )
 
 
